@@ -16,6 +16,7 @@ CONSTANTS
   EmitAtBound = TRUE
   Pin1 = 0
   Pin2 = 0
+  MaxMid = 0
   HistMax = 12
   AtomicPoll = TRUE
 INVARIANTS Emit PollOK TokensOK InterestsOK
